@@ -2746,7 +2746,9 @@ def search(ctx, broken):
     for spec in gen_input_specs(rng, ctx.n(20, 100)):      # results of the extractors on generated inputs
         for i, r in enumerate(_input_results(spec)):
             add(check_value(r, {"input": spec, "index": i}))
-    res = extractor_results(ctx, max_size=ctx.n(400_000, 5_000_000), limit=ctx.n(45, 400))
+    # in the search EVERY fixture is judged, in both tiers (which fixtures carry a field state that only real files produce
+    # — a None next to a non-None default, say — must not depend on a size cut or on the seed)
+    res = extractor_results(ctx, max_size=5_000_000, limit=400)
     for desc, r in res:
         add(check_value(r, desc))
         try:
